@@ -170,6 +170,57 @@ def run(chk, tier, seed):
                     same = o.out == base.out and o.rc == base.rc
                 events.append(dict(e="pair", tag="opus-order", cmd=cmd[:2], variant="order:" + " ".join(x[0] for x in perm), same=1 if same else 0,
                                    rc=base.rc if base.rc is not None else -9, rc2=o.rc if o.rc is not None else -9, clean=1 if o.ok_alphabet() else 0))
+        # ---- the column layout itself (CatLayout.tla): files per line for each ui style and terminal width
+        rl = common.tlc("CatLayout", "CatLayout.cfg")
+        chk.add_tlc("CatLayout.cfg", rl)
+        chk.extra["layout_model_vs_table"] = rl.violated or "agree"
+        lay_events = []
+        ljobs = []
+        for (nc, no) in ((0, 0), (1, 0), (0, 3), (5, 4), (31, 0), (16, 15), (2, 1), (4, 9)):
+            ents = [mkdisc.entry("C%02d" % i, "$", i % 3 == 0, 0, 0, 10, 300 - i) for i in range(nc)] + \
+                   [mkdisc.entry("O%02d" % i, "ABD"[i % 3], i % 2 == 0, 0, 0, 10, 250 - i) for i in range(no)]
+            d = discs.build("DFS", ents, scratch, "lay%d-%d" % (nc, no), nsectors=400, salt=17, title=b"LAYOUT")
+            for ui in ("acorn", "watford", "opus"):
+                for w in (20, 39, 40, 79, 80, 132):
+                    ljobs.append((d.path, ui, w, nc, no))
+
+        def dolay(j):
+            path, ui, w, nc, no = j
+            rc, out = run_pty([dfs, "--file", path, "--ui", ui, "cat"], {"COLUMNS": str(w)})
+            lines = out.decode("latin1").split("\n")
+            try:
+                blank = lines.index("")
+            except ValueError:
+                blank = len(lines)
+            region = lines[blank + 1:]
+            while region and region[-1] == "":
+                region.pop()
+            counts = []
+            for ln in region:
+                if re.match(r"^\d\d files of \d+ on \d+ tracks$", ln) or ln == "No file":
+                    break
+                counts.append(sum(1 for p0 in range(0, len(ln), 20) if ln[p0:p0 + 20].strip()))
+            while counts and counts[-1] == 0:
+                counts.pop()
+            return dict(e="layout", ui=ui, width=w, ncur=nc, nother=no, lines=counts, rc=rc if rc is not None else -9)
+        import re
+        lay_events = common.pmap(dolay, ljobs)
+        ltrace = os.path.join(scratch, "layout.ndjson")
+        with open(ltrace, "w") as f:
+            for e in lay_events:
+                f.write(json.dumps(e) + "\n")
+        okl, trl = common.validate_trace("TraceCatLayout", "TraceCatLayout.cfg", ltrace, timeout=600)
+        chk.add_tlc("TraceCatLayout", trl)
+        if not okl or not trl.verdicts:
+            raise common.MachineryError("TraceCatLayout did not consume the whole trace:\n" + trl.output[-2000:])
+        # C18 does not fix the layout, only that nothing but the layout changes: a different layout is reported in the
+        # evidence as a difference from the documented column table, never as a violation of C18
+        lay_bad = [lay_events[ln - 1] for ln in sorted(trl.verdicts[-1]["bad"])]
+        chk.extra["layout_differs_from_documented_table"] = [dict(ui=e["ui"], width=e["width"], files=[e["ncur"], e["nother"]], lines=e["lines"]) for e in lay_bad[:10]]
+        chk.drift += len(lay_bad)
+        for e in lay_events:
+            chk.case(("layout", e["ui"], e["width"], e["ncur"], e["nother"]))
+        chk.traces += len(lay_events)
         for e in events:
             chk.case((e["tag"], tuple(e["cmd"]), e["variant"]), nontrivial=e["rc"] == 0)
         chk.sample(events[0])
